@@ -318,6 +318,11 @@ func (c13) Expand(pj json.RawMessage) []json.RawMessage {
 		}
 		if p.Batch == "crash" {
 			add([]simunix.Fault{{At: rec.N, Kind: "crash"}})
+			if rec.N == r.acTo-1 {
+				// and right after the call has returned (the crash hits the
+				// harness's own next system call)
+				add([]simunix.Fault{{At: r.acTo, Kind: "crash"}})
+			}
 			continue
 		}
 		switch rec.Op {
@@ -331,6 +336,15 @@ func (c13) Expand(pj json.RawMessage) []json.RawMessage {
 			add([]simunix.Fault{{At: rec.N, Kind: "short", Short: int(rec.Ret) / 2}})
 		case "fsync", "fdatasync":
 			add([]simunix.Fault{{At: rec.N, Kind: "errno", Errno: int(simunix.EIO)}})
+			// a failed flush and, a few system calls later, a power failure:
+			// whatever the call did after the failure (gave up, retried,
+			// renamed), the name holds the old or the new contents. On this
+			// kernel, as on Linux, the data that was dirty when fsync failed
+			// is dropped from write-back: a retried fsync that "succeeds" has
+			// flushed nothing.
+			for i := rec.N + 1; i <= rec.N+8; i++ {
+				add([]simunix.Fault{{At: rec.N, Kind: "errno", Errno: int(simunix.EIO)}, {At: i, Kind: "crash"}})
+			}
 		case "renameat", "linkat":
 			add([]simunix.Fault{{At: rec.N, Kind: "errno", Errno: int(simunix.EIO)}})
 			add([]simunix.Fault{{At: rec.N, Kind: "errno", Errno: int(simunix.ENOSPC)}})
